@@ -72,6 +72,59 @@ def vectors_round(ctx, rng, n, em):
         ctx.sample({"vector": s, "clean": c})
 
 
+def routes_round(ctx, rng, n, em):
+    """(a) systematic field orders (official, the orders of the library's own tables, alphabetical, reversed, rotated groups),
+    with and without Not Defined spelled out; (b) objects built by the OTHER routes - from_rh_vector() and
+    parse_cvss_from_text() - emit the same valid vectors as the constructor's object"""
+    im = core.impl()
+    for _ in range(n):
+        ver = rng.choice("234")
+        a = core.rand_assignment(ver, rng, p_absent=rng.choice([0.0, 0.3, 0.7]), p_nd=rng.choice([0.0, 0.0, 0.2]))
+        for s in core.order_variants(ver, a, rng):
+            o, e = obs.construct(ver, s)
+            ctx.count()
+            rp = {"kind": "vector", "ver": ver, "s": s}
+            if o is None:
+                ctx.violation("v%s:valid-vector-rejected" % ver, "accepted vector rejected", s, "accepted", e, replay=rp)
+                continue
+            try:
+                c, r = o.clean_vector(), o.rh_vector()
+            except Exception as ex:  # noqa
+                ctx.violation("v%s:accessor-raised" % ver, "clean_vector()/rh_vector() raised", s, None, repr(ex), replay=rp)
+                continue
+            em.append((check_emitted(ctx, ver, s, c, "clean_vector()", rp), c))
+            check_emitted(ctx, ver, s, r.split("/", 1)[-1], "rh_vector() vector part", rp)
+            # other routes to an object of the same vector
+            alts = []
+            try:
+                alts.append(("from_rh_vector(rh_vector())", im.cls[ver].from_rh_vector(r)))
+            except Exception as ex:  # noqa
+                pass   # C12 reports a failing round trip
+            if ver != "4":
+                try:
+                    from cvss.parser import parse_cvss_from_text
+                    got = parse_cvss_from_text("see " + s + " .")
+                    if len(got) == 1:
+                        alts.append(("parse_cvss_from_text()", got[0]))
+                except Exception:  # noqa
+                    pass   # C13 reports
+            for how, p in alts:
+                rp2 = {"kind": "route", "ver": ver, "s": s, "how": how}
+                try:
+                    outs = [("clean_vector()", p.clean_vector()), ("rh_vector() vector part", p.rh_vector().split("/", 1)[-1])]
+                    if ver != "4":
+                        pass
+                except Exception as ex:  # noqa
+                    ctx.violation("v%s:accessor-raised" % ver, "an accessor of an object built by %s raised" % how, s, None, repr(ex), replay=rp2)
+                    continue
+                ctx.count()
+                for what, x in outs:
+                    check_emitted(ctx, ver, s, x, "%s of the object built by %s" % (what, how), rp2)
+                if outs[0][1] != c or p.rh_vector() != r:
+                    ctx.violation("v%s:route-changes-emitted-vector" % ver, "the object built by %s emits other vectors than the constructor's object" % how,
+                                  s, [c, r], [outs[0][1], p.rh_vector()], replay=rp2)
+
+
 def interactive_round(ctx, rng, n, em):
     rp = res = None
     for _ in range(n):
@@ -106,6 +159,7 @@ def run(ctx):
     vectors_round(ctx, rng, nv // 2, em)
     interactive_round(ctx, rng, ni - ni // 3, em)
     vectors_round(ctx, rng, nv - nv // 2, em)
+    routes_round(ctx, rng, ctx.n(1500, 30000), em)
     # the Lean regex semantics agrees with Python's re on the emitted strings (validates the Re terms)
     if ctx.model_available:
         sel = list(dict.fromkeys(em))[: ctx.n(6000, 60000)]
@@ -118,6 +172,27 @@ def run(ctx):
 
 def replay(data):
     r = data["replay"]
+    if r["kind"] == "route":
+        im = core.impl()
+        o, e = obs.construct(r["ver"], r["s"])
+        if o is None:
+            return False, "rejected: %s" % e
+        if r["how"].startswith("from_rh"):
+            p = im.cls[r["ver"]].from_rh_vector(o.rh_vector())
+        else:
+            from cvss.parser import parse_cvss_from_text
+            p = parse_cvss_from_text("see " + r["s"] + " .")[0]
+        outs = [p.clean_vector(), p.rh_vector().split("/", 1)[-1]]
+        ver = r["ver"]
+        same = p.clean_vector() == o.clean_vector() and p.rh_vector() == o.rh_vector()
+        msgs = []
+        ok = same
+        for x in outs:
+            o2, e2 = obs.construct(ver, x)
+            m = re.search(pattern(key_of(ver, x)), x) is not None
+            ok = ok and o2 is not None and m
+            msgs.append("%r: own parser %s, official pattern %s" % (x, "accepts" if o2 is not None else e2, "matches" if m else "DOES NOT match"))
+        return ok, "object built by %s: same emitted vectors as the constructor's object: %s; %s" % (r["how"], same, "; ".join(msgs))
     if r["kind"] == "vector":
         o, e = obs.construct(r["ver"], r["s"])
         if o is None:
